@@ -60,10 +60,6 @@ func equal(elems []any, nonTerminals []lex.Token, defaultField string) ([]any, [
 		return elems, nonTerminals, false
 	}
 
-	// terms inside field:( ... ) are values of that field: the default field does not apply to
-	// them, so the scoping the inner reducers added is taken off again
-	value = unscope(value, defaultField)
-
 	if literals, ok := isChainedOrLiterals(value); ok && len(literals) > 1 {
 		elems = []any{
 			expr.IN(
@@ -512,33 +508,6 @@ func toPositiveFloat(in string) (f float64, err error) {
 	}
 
 	return f, fmt.Errorf("[%v] is not a positive float", in)
-}
-
-// unscope removes the default-field scoping that wrapLiteral put on the bare terms of a group.
-func unscope(in *expr.Expression, field string) *expr.Expression {
-	if in == nil || field == "" {
-		return in
-	}
-	switch in.Op {
-	case expr.Equals, expr.Like:
-		col, isExpr := in.Left.(*expr.Expression)
-		if !isExpr || col.Op != expr.Literal {
-			return in
-		}
-		if c, isCol := col.Left.(expr.Column); isCol && string(c) == field {
-			if inner, ok := in.Right.(*expr.Expression); ok {
-				return inner
-			}
-		}
-	case expr.And, expr.Or, expr.Not, expr.Must, expr.MustNot, expr.Boost, expr.Fuzzy:
-		if l, ok := in.Left.(*expr.Expression); ok {
-			in.Left = unscope(l, field)
-		}
-		if r, ok := in.Right.(*expr.Expression); ok {
-			in.Right = unscope(r, field)
-		}
-	}
-	return in
 }
 
 // wrapLiteral will wrap a literal expression in an equals expression for a defaultField.
